@@ -85,6 +85,8 @@ func main() {
 	if report.FreeRun > 0 {
 		gate.FreeRuns = report.FreeRun
 		e2(ps, owner)
+		e3(ps, owner)
+		res.Info["E3"] = "failover inside a provider: for every ordered pair of providers, deployment {own (refuses), own (refuses or works), other (works, highest priority)} under the priority balancer; every attempt of the request must stay on endpoints of the prefix's provider"
 		res.Add("free_runs", int64(gate.FreeRunsDone))
 		res.Finish()
 	}
@@ -128,6 +130,8 @@ func main() {
 		runSet(set, prefixes, owner, ps)
 	}
 	e2(ps, owner)
+	e3(ps, owner)
+	res.Info["E3"] = "failover inside a provider: for every ordered pair of providers, deployment {own (refuses), own (refuses or works), other (works, highest priority)} under the priority balancer; every attempt of the request must stay on endpoints of the prefix's provider"
 	res.Info["E2"] = "two overlapping requests under different provider prefixes (POST completion or GET model listing each), deployments {type of the second} and {both types}; gates: every record logged through a request-scoped logger and backend arrival; one thread released at a time; all orders of the blocks with <=1 preemption (<=2 thorough)"
 	res.Info["grid"] = map[string]any{"prefixes": prefixes, "endpoint_types": types, "type_sets": len(sets), "max_set_size": maxSet,
 		"paths": []string{"/v1/chat/completions", "/v1/completions", "/api/chat (native-style)", "/unknown/path"}, "health": "all healthy; each endpoint unhealthy in turn; all unhealthy"}
@@ -224,6 +228,32 @@ func runSet(set []string, prefixes []string, owner map[string]string, ps []prof)
 					res.Violate("not-served-although-compatible-endpoint-healthy", map[string]any{"prefix_owner": ownClass(own), "path": path}, cell+"\nclient: "+r.String(), rp)
 				}
 			}
+			// failover must stay inside the provider as well: every compatible endpoint is listed healthy but refuses
+			// connections, every other endpoint works - the client gets an error and no other kind is contacted
+			if hm == (1<<uint(n))-1 && anyIncompat && anyCompatHealthy {
+				for i, b := range bes {
+					b.Reset()
+					b.Refuse(compatible(own, set[i], ps))
+				}
+				r := stack.Do(o.Addr, &stack.Req{Method: "POST", Target: "/olla/" + px + "/v1/chat/completions", Body: []byte(`{"messages":[{"role":"user","content":"hi"}]}`),
+					Headers: [][2]string{{"Content-Type", "application/json"}}, Timeout: 8 * time.Second})
+				res.Add("evaluations", 1)
+				cell := fmt.Sprintf("types=%v all listed healthy, the compatible ones refuse connections: POST /olla/%s/v1/chat/completions (prefix owner %s)", set, px, own)
+				rp := map[string]any{"engine": "stack", "cell": cell}
+				res.SetAdd("distinct_nontrivial", fmt.Sprintf("%v|refuse|%s|%d", set, px, r.Status))
+				for i, b := range bes {
+					if len(b.Requests()) > 0 && !compatible(own, set[i], ps) {
+						res.Violate("failover-leaves-the-provider", map[string]any{"prefix_owner": ownClass(own)}, cell+fmt.Sprintf("\nrequest reached endpoint %s of type %s; client: %s", b.Name, set[i], r), rp)
+					}
+				}
+				if r.Status >= 200 && r.Status < 300 {
+					res.Violate("success-without-compatible-endpoint", map[string]any{"prefix_owner": ownClass(own), "mode": "refuse"}, cell+"\nclient: "+r.String(), rp)
+				}
+				for _, b := range bes {
+					b.Refuse(false)
+					o.SetStatus(b.Name, "healthy")
+				}
+			}
 			// model listing under the prefix: only models attributed to compatible endpoints
 			r := stack.Do(o.Addr, &stack.Req{Method: "GET", Target: "/olla/" + px + "/v1/models", Headers: [][2]string{{"X-Verif-Client", "1"}}, Timeout: 5 * time.Second})
 			res.Add("evaluations", 1)
@@ -274,6 +304,28 @@ func ownClass(own string) string {
 // its request-scoped logger, arrival at a backend); all orders of the resulting blocks are enumerated up to
 // a preemption bound. The oracle per request is E1's.
 
+// providerOwners enumerates the providers for E2/E3 deterministically: one entry per shipped profile that declares
+// a prefix (in name order), with the profile's first declared prefix. (The factory resolves a prefix that two
+// profiles declare - "openai" - by map iteration order, so what it says about that prefix varies from start to
+// start; the oracle asks the factory, the enumeration must not depend on it.)
+func providerOwners(ps []prof, owner map[string]string) ([]string, map[string]string) {
+	first := map[string]string{}
+	var owners []string
+	for _, p := range ps { // ps is sorted by profile name
+		if len(p.prefixes) == 0 {
+			continue
+		}
+		own := owner[p.prefixes[0]]
+		if _, dup := first[own]; dup {
+			continue
+		}
+		first[own] = p.prefixes[0]
+		owners = append(owners, own)
+	}
+	sort.Strings(owners)
+	return owners, first
+}
+
 type e2world struct {
 	mu  sync.Mutex
 	ctl *gate.Controller
@@ -286,27 +338,7 @@ func (w *e2world) controller() *gate.Controller {
 }
 
 func e2(ps []prof, owner map[string]string) {
-	isType := map[string]bool{}
-	for _, p := range ps {
-		isType[p.name] = true
-	}
-	// one prefix per owner that is also an endpoint type
-	first := map[string]string{}
-	var pxs []string
-	for px := range owner {
-		pxs = append(pxs, px)
-	}
-	sort.Strings(pxs)
-	for _, px := range pxs {
-		if _, ok := first[owner[px]]; !ok && isType[owner[px]] {
-			first[owner[px]] = px
-		}
-	}
-	var owners []string
-	for o := range first {
-		owners = append(owners, o)
-	}
-	sort.Strings(owners)
+	owners, first := providerOwners(ps, owner)
 	bound := 1
 	if report.Thorough() {
 		bound = 2
@@ -495,4 +527,74 @@ func e2deployment(set []string, px, own [2]string, ps []prof, bound int) {
 		}
 	}
 	res.Sample(map[string]any{"part": "E2", "types": set, "prefixes": px, "preemption_bound": bound})
+}
+
+// ---------------------------------------------------------------- E3: failover stays inside the provider
+//
+// The candidate set of a provider-scoped request is narrower than the healthy set. With two endpoints of the
+// provider and one of another kind that the balancer would prefer, every attempt - the first and every
+// failover - must go to the provider's endpoints only.
+
+func e3(ps []prof, owner map[string]string) {
+	owners, first := providerOwners(ps, owner)
+	idx := 1 << 24
+	for _, own := range owners {
+		for _, other := range owners {
+			if own == other || compatible(own, other, ps) {
+				continue
+			}
+			idx++
+			if !report.Mine(idx) {
+				continue
+			}
+			if report.Expired() {
+				res.NotExhaustive("E3: time budget")
+				return
+			}
+			types := []string{other, own, own}
+			var bes []*stack.Backend
+			var eps []stack.EP
+			for i, t := range types {
+				b := stack.NewBackend(fmt.Sprintf("ep%d-%s", i, t), t, true)
+				t := t
+				b.ModelsBody = func() []byte { return stack.ModelsFor(t, "model-of-"+t) }
+				b.SetFixed(stack.OK(okCompletion))
+				bes = append(bes, b)
+				eps = append(eps, stack.EP{B: b, Type: t, Priority: 300 - 100*i})
+			}
+			o, err := stack.Boot(stack.Opts{Engine: []string{"sherpa", "olla"}[idx%2], Balancer: "priority", Endpoints: eps, ModelDiscovery: true, CheckInterval: time.Hour})
+			if err != nil {
+				res.Break("E3 boot: %v", err)
+				return
+			}
+			for _, second := range []string{"works", "refuses"} {
+				for _, b := range bes {
+					b.Reset()
+					b.Refuse(false)
+					o.SetStatus(b.Name, "healthy")
+				}
+				bes[1].Refuse(true)
+				bes[2].Refuse(second == "refuses")
+				r := stack.Do(o.Addr, &stack.Req{Method: "POST", Target: "/olla/" + first[own] + "/v1/chat/completions", Body: []byte(`{"messages":[{"role":"user","content":"hi"}]}`),
+					Headers: [][2]string{{"Content-Type", "application/json"}}, Timeout: 8 * time.Second})
+				res.Add("evaluations", 1)
+				cell := fmt.Sprintf("deployment [%s (priority 300), %s (200, refuses connections), %s (100, %s)] POST /olla/%s/v1/chat/completions", other, own, own, second, first[own])
+				rp := map[string]any{"engine": "stack", "part": "E3", "cell": cell}
+				res.SetAdd("distinct_nontrivial", fmt.Sprintf("E3|%s|%s|%s|%d", own, other, second, r.Status))
+				if len(bes[0].Requests()) > 0 {
+					res.Violate("failover-leaves-the-provider", map[string]any{"part": "E3", "prefix_owner": ownClass(own)}, cell+fmt.Sprintf("\nthe %s endpoint received %d request(s); client: %s", other, len(bes[0].Requests()), r), rp)
+				}
+				if second == "works" && (r.Status != 200 || len(bes[2].Requests()) != 1) {
+					res.Violate("not-served-although-compatible-endpoint-healthy", map[string]any{"part": "E3", "prefix_owner": ownClass(own)}, cell+"\nclient: "+r.String(), rp)
+				}
+				if second == "refuses" && r.Status >= 200 && r.Status < 300 {
+					res.Violate("success-without-compatible-endpoint", map[string]any{"part": "E3", "prefix_owner": ownClass(own)}, cell+"\nclient: "+r.String(), rp)
+				}
+			}
+			o.Stop()
+			for _, b := range bes {
+				b.Close()
+			}
+		}
+	}
 }
